@@ -4,6 +4,7 @@ import c11lib as L
 NAME = "heyawake"
 MODULE = "cspuz.puzzle.heyawake"
 FUNC = "solve_heyawake"
+TIER1 = ("Heyawake", "solve_heyawake_model")
 
 
 def call(mod, pb):
@@ -65,3 +66,19 @@ def big(tier, rng):
         for _ in range(12 if th else 3):
             rooms = L.random_rooms(rng, h, w, rng.choice([3, 4]))
             yield {"h": h, "w": w, "rooms": rooms, "clues": [rng.choice([-1, -1, 1, 2, 3]) for _ in rooms]}
+
+
+def tier1_problems(tier, rng):
+    """program-capture tie: every room layout of the tiniest boards, random layouts with many small rooms (several
+    borders per line) on small, non-square and larger boards, long thin boards, boards without cells"""
+    th = tier == "thorough"
+    for (h, w) in [(1, 1), (1, 2), (2, 1), (1, 3), (3, 1), (2, 2), (1, 4), (4, 1), (2, 3), (3, 2)]:
+        parts = list(L.region_partitions(h, w))
+        for rooms in (parts if th else L.sample(rng, parts, 10)):
+            yield from _with_clues(rng, h, w, rooms, 1)
+    for (h, w) in [(1, 5), (5, 1), (3, 3), (2, 5), (5, 2), (4, 4), (3, 6), (6, 5), (1, 9), (9, 1), (8, 8), (2, 21)]:
+        for _ in range(8 if th else 3):
+            k = rng.randint(2, max(2, h * w // 2))
+            yield from _with_clues(rng, h, w, L.random_rooms(rng, h, w, k), 1)
+    for (h, w) in [(0, 0), (0, 2), (2, 0)]:
+        yield {"h": h, "w": w, "rooms": [], "clues": []}
